@@ -125,6 +125,7 @@ def features():
         {'name': 'Rest', 'body': [F('h', 'char'), A('ps', 'Pair')]},
         {'name': 'RestWhile', 'body': [F('h', 'char'), A('ns', 'Named')]},
         {'name': 'Blobby', 'body': [F('h', 'short'), F('data', 'blob')]},
+        {'name': 'BlobParts', 'body': [F('h', 'char'), CH(A('parts', 'blob', delimited='true'), F('tail', 'blob'))]},
         {'name': 'PadEnc', 'body': [F('a', 'encoded_string', length='5', padded='true'), F('b', 'string', length='4', padded='true'), F('c', 'encoded_string', length='3')]},
         {'name': 'IntSwitch', 'body': [F('code', 'char'), SW('code', CASE('1', F('p', 'Pair')), CASE('2'), CASE('3', F('s', 'string'))), ]},
         {'name': 'SwitchDefault', 'body': [F('k', 'Kind'), SW('k', CASE('A', F('q', 'short')), CASE('B'), CASE('5', F('r', 'char')), CASE(None, F('z', 'three'), default=True))]},
@@ -159,8 +160,14 @@ def names():
     t['map']['structs'] += [{'name': 'Pub', 'body': [F('p', 'Protocol')]},
                             {'name': 'HTTPServer2Go', 'body': [F('port', 'short'), F('pub', 'Pub'), F('net', 'Net')]}]
     t['net']['structs'] += [{'name': 'Map', 'body': [F('m', 'char'), F('e', 'EIFData')]}]
-    t['net/client']['packets'] += [{'family': 'Talk', 'action': 'Init', 'body': [F('pos', 'NPCPosition')]}]
-    t['net/server']['packets'] += [{'family': 'Welcome', 'action': 'Reply', 'body': [F('m', 'Map'), F('h', 'HTTPServer2Go')]}]
+    # an enum value called None (spelled None_ as a Python member) used as a packet action; directories sharing a leaf name
+    # (net/server, pub/server) referencing each other's types
+    t['net']['enums'][1]['values'].append(('None', '0'))
+    t['pub/server']['structs'] += [{'name': 'ShopRecord', 'body': [F('id', 'short'), F('v', 'Vector2D')]}]
+    t['net/client']['packets'] += [{'family': 'Talk', 'action': 'Init', 'body': [F('pos', 'NPCPosition')]},
+                                   {'family': 'Talk', 'action': 'None', 'body': [F('x', 'char')]}]
+    t['net/server']['packets'] += [{'family': 'Welcome', 'action': 'Reply', 'body': [F('m', 'Map'), F('h', 'HTTPServer2Go')]},
+                                   {'family': 'Talk', 'action': 'None', 'body': [F('shop', 'ShopRecord'), F('e', 'EIFData')]}]
     return t
 
 
